@@ -1,7 +1,81 @@
 package main
 
-import "fmt"
+import (
+	"encoding/json"
+	"fmt"
+	"os"
+	"path/filepath"
+	"sort"
+	"strings"
+)
 
+// selftestMain is the translator validation: a harness made of concrete
+// computations over the standard library and go-mail kernels is executed once
+// by the symbolic interpreter and once natively; every svNote line must agree.
 func selftestMain(args []string) {
-	fmt.Println("selftest: TODO")
+	dir := os.Getenv("SYMGO_REPO")
+	if dir == "" {
+		dir = "/repo"
+	}
+	files := []string{"harness/mail/common.go", "harness/common/smtpsrv.go", "harness/mail/c03.go", "harness/selftest/selftest.go"}
+	ls := &loadSpec{Dir: dir, Pkg: ".", Files: files, Fn: "HarnessSelftest", Params: map[string]int{}, TimeoutMS: 20000, MaxSteps: 200000000}
+	pl := newPool(ls)
+	res := explore(pl, ls, exploreOpts{Workers: 1, Samples: 0, MaxViol: 5})
+	pl.close()
+	if !res.Complete || res.Paths != 1 || len(res.Violations) > 0 {
+		fmt.Printf("selftest: engine run failed: paths=%d aborted=%d %v violations=%d\n", res.Paths, res.Aborted, res.AbortWhy, len(res.Violations))
+		os.Exit(2)
+	}
+	var eng []string
+	for n, c := range res.Notes {
+		for i := 0; i < c; i++ {
+			eng = append(eng, n)
+		}
+	}
+	sort.Strings(eng)
+	rp := newReplayer(dir)
+	defer rp.cleanup()
+	rf := &ReplayFile{Property: "selftest", Run: "selftest", Pkg: ".", Files: files, Fn: "HarnessSelftest", Kind: "clean", Inputs: map[string]uint64{}, Params: map[string]int{}}
+	vec := filepath.Join(rp.scratch, "selftest.json")
+	jb, _ := json.Marshal(rf)
+	os.WriteFile(vec, jb, 0o644)
+	ok, out, err := rp.run(rf, vec)
+	if err != nil || !ok {
+		fmt.Printf("selftest: native run failed: %v\n%s\n", err, tail(out, 30))
+		rp.cleanup()
+		os.Exit(2)
+	}
+	var nat []string
+	for _, l := range strings.Split(out, "\n") {
+		if strings.HasPrefix(l, "SV-NOTE ") {
+			nat = append(nat, strings.TrimPrefix(l, "SV-NOTE "))
+		}
+	}
+	sort.Strings(nat)
+	bad := 0
+	em := map[string]string{}
+	for _, l := range eng {
+		if i := strings.IndexByte(l, '='); i > 0 {
+			em[l[:i]] = l[i+1:]
+		}
+	}
+	for _, l := range nat {
+		i := strings.IndexByte(l, '=')
+		if i <= 0 {
+			continue
+		}
+		if ev, ok := em[l[:i]]; !ok || ev != l[i+1:] {
+			bad++
+			fmt.Printf("selftest MISMATCH %s\n  native: %.300s\n  engine: %.300s\n", l[:i], l[i+1:], ev)
+		}
+	}
+	if len(nat) != len(eng) {
+		bad++
+		fmt.Printf("selftest: %d native notes vs %d engine notes\n", len(nat), len(eng))
+	}
+	if bad > 0 {
+		rp.cleanup()
+		os.Exit(2)
+	}
+	fmt.Printf("selftest: %d observations identical between the symbolic interpreter and the native build (%d instructions interpreted)\n", len(nat), res.Steps)
 }
